@@ -24,6 +24,7 @@
  *   (sorted; path elements hex, joined by '/'; every element is listed, `=<value>` when it has one)
  */
 #include "drv_util.h"
+extern int __lsan_do_recoverable_leak_check(void);
 #include <errno.h>
 #include <sys/uio.h>
 #include "meta.h"
@@ -705,6 +706,38 @@ int main(void)
 			mpt_path_fini(&p);
 			result(out, ret);
 		}
+		else if (!strcmp(op, "reuse") && drv_nw == 5) {
+			/* g reuse <sep-hex> <elems> <text-hex>: a path built element by element (own buffer) is set anew from a plain
+			 * string with mpt_path_set: the old buffer must be released, the walk gives the components of the text */
+			MPT_STRUCT(path) p = MPT_PATH_INIT, q;
+			int ok = 1, n, first = 1;
+			size_t i;
+			char *save = 0, *tok;
+			if (get_char(drv_w[2], &sep)) { puts("bad-op"); continue; }
+			if (!(ptxt = get_text(drv_w[4], &plen))) { puts("bad-op"); continue; }
+			p.sep = sep; p.assign = 0;
+			for (tok = strtok_r(drv_w[3], ",", &save); tok; tok = strtok_r(0, ",", &save)) {
+				size_t el;
+				char *e = get_text(tok, &el);
+				if (!e) { ok = 0; break; }
+				for (i = 0; i < el; i++) if (mpt_path_addchar(&p, (uint8_t) e[i]) < 0 || mpt_path_valid(&p) < 0) ok = 0;
+				if (mpt_path_add(&p, (int) el) < 0) ok = 0;
+				free(e);
+			}
+			if (!ok) { mpt_path_fini(&p); free(ptxt); puts("bad-op"); continue; }
+			mpt_path_set(&p, ptxt, -1);
+			strcpy(out, "elems=");
+			q = p;
+			while (q.len && (n = mpt_path_next(&q)) >= 0) {
+				size_t start = q.off - (size_t) n - 1;
+				put_elems(out, sizeof(out), q.base + start, (size_t) n, first);
+				first = 0;
+			}
+			if (first) strcat(out, "none");
+			mpt_path_fini(&p);
+			free(ptxt);
+			result(out, "-");
+		}
 		else if (!strcmp(op, "extend") && drv_nw == 6) {
 			/* g extend <sep-hex> <text-hex> <skip> <elems>: path from a plain string (no own buffer), <skip> x next,
 			 * then further elements added character by character (first character moves the data to an own buffer), walk */
@@ -814,7 +847,8 @@ int main(void)
 				root = 0;
 			}
 			mpt_config_set(0, 0, 0, '.', 0);   /* empty path: clear the global configuration */
-			result("ok", "0");
+			/* several scripts share a process: a leak is reported with the script that made it */
+			result(__lsan_do_recoverable_leak_check() ? "leak" : "ok", "0");
 		}
 		else puts("bad-op");
 	}
